@@ -1,5 +1,6 @@
 (* C11 - length filter partitions rows; unique file and names agree with the metadata. *)
-From VV Require Import Model.Base Model.Pattern Model.Unique Model.PyStr Proofs.UniqueProofs Generated.KernelsNames Proofs.NamesProofs.
+From VV Require Import Model.Base Model.Pattern Model.Unique Model.PyStr Proofs.UniqueProofs Generated.KernelsNames Proofs.NamesProofs
+  Model.PyLoop Generated.KernelsCounts Proofs.KernelCountsEquiv.
 From Coq Require Import Sorting.Permutation.
 
 (* rows are partitioned by the length test (order preserved: both files are filters of the row sequence) *)
@@ -66,6 +67,22 @@ Example C11_names_example :
   no_us "2del0"%string = true.
 Proof. exact names_example. Qed.
 
+(* the counters of the length filter as the source computes them (OligoGenerationInfo, translated on every run: its methods assign fields of
+   self, the translation returns the new record): one row is counted in exactly one counter and included exactly when the model includes it;
+   over the rows of a targeton, in order, the counts are the model's (so C11_counts_match speaks about the source); the summary adds field by field *)
+Theorem C11_length_filter_matches_source : forall c mn mx len,
+  k_info_eval_in_range c (mkOpts mn mx) len = Ok (count_step mn mx c len, included mn mx len).
+Proof. exact k_info_eval_in_range_eq. Qed.
+
+Theorem C11_counts_of_a_targeton_match_source : forall mn mx lens c,
+  fold_m (fun acc len => do r <- k_info_eval_in_range (fst acc) (mkOpts mn mx) len; Ok (fst r, snd acc ++ [snd r])) lens (c, [])
+  = Ok (fold_left (count_step mn mx) lens c, map (included mn mx) lens).
+Proof. exact source_counts. Qed.
+
+Theorem C11_summary_update_matches_source : forall a b,
+  k_info_update a b = Ok (mkCounts (too_short a + too_short b) (in_range_n a + in_range_n b) (too_long a + too_long b)).
+Proof. exact k_info_update_eq. Qed.
+
 Print Assumptions C11_partition_exact.
 Print Assumptions C11_counts_match.
 Print Assumptions C11_unique_one_per_mseq.
@@ -74,3 +91,6 @@ Print Assumptions C11_sge_name_closed_form.
 Print Assumptions C11_cdna_name_closed_form.
 Print Assumptions C11_sge_names_injective.
 Print Assumptions C11_cdna_names_injective.
+Print Assumptions C11_length_filter_matches_source.
+Print Assumptions C11_counts_of_a_targeton_match_source.
+Print Assumptions C11_summary_update_matches_source.
